@@ -1,12 +1,13 @@
 #!/bin/bash
 # usage: seedeval.sh Cxx  — confirm a sub-agent's seeded change (tests pass, demo differs) and run the check against it
 id=$1; out=${2:-/tmp/seed_out}/$id; wt=/tmp/wt_$id
+V=${VERIF_DIR:-/verif}; R=${UTAP_REPO:-/repo}; export UTAP_REPO=$R
 echo "== $id: $(python3 -c "import json;print(json.load(open('$out/meta.json')).get('summary','')[:200])" 2>/dev/null)"
 ( cd $wt && cmake --build _build -j16 >/dev/null 2>&1; ctest --test-dir _build -j8 2>&1 | grep "tests passed" )
 if [ -f $out/demo.cpp ]; then
   ( cd $wt && g++ -std=c++17 -w -I include -I _build/src/include -I src -isystem /usr/include/libxml2 $out/demo.cpp _build/src/libUTAP.a -lxml2 -ldl -o /tmp/demo_${id}_changed 2>&1 | tail -3 )
-  ( cd /repo && g++ -std=c++17 -w -I include -I _build/src/include -I src -isystem /usr/include/libxml2 $out/demo.cpp _build/src/libUTAP.a -lxml2 -ldl -o /tmp/demo_${id}_unchanged 2>&1 | tail -3 )
+  ( cd $R && g++ -std=c++17 -w -I include -I _build/src/include -I src -isystem /usr/include/libxml2 $out/demo.cpp _build/src/libUTAP.a -lxml2 -ldl -o /tmp/demo_${id}_unchanged 2>&1 | tail -3 )
   (cd /tmp && timeout 120 /tmp/demo_${id}_unchanged > /tmp/demo_${id}_unchanged.txt 2>&1; timeout 120 /tmp/demo_${id}_changed > /tmp/demo_${id}_changed.txt 2>&1)
   if cmp -s /tmp/demo_${id}_unchanged.txt /tmp/demo_${id}_changed.txt; then echo "DEMO: no difference"; else echo "DEMO: outputs differ ($(wc -l < /tmp/demo_${id}_unchanged.txt) vs $(wc -l < /tmp/demo_${id}_changed.txt) lines)"; diff /tmp/demo_${id}_unchanged.txt /tmp/demo_${id}_changed.txt | head -8; fi
 fi
-git -C /repo apply --check $out/patch.diff && git -C /repo apply $out/patch.diff && ( cd /verif && ./check $id 2>&1 | grep -v "^KNOWN" | cut -c1-300 | head -4; echo "check exit: ${PIPESTATUS[0]}" ); git -C /repo checkout -- .; git -C /verif checkout -- evidence/$id.json 2>/dev/null   # the evidence of a run against a changed tree is not the record of the unchanged one
+git -C $R apply --check $out/patch.diff && git -C $R apply $out/patch.diff && ( cd $V && ./check $id 2>&1 | grep -v "^KNOWN" | cut -c1-300 | head -4; echo "check exit: ${PIPESTATUS[0]}" ); git -C $R checkout -- .; git -C $V checkout -- evidence/$id.json 2>/dev/null   # the evidence of a run against a changed tree is not the record of the unchanged one
